@@ -41,6 +41,9 @@ pub struct CutProfile {
     pub fs_only: bool,
     pub gen_cfg: GenCfg,
     pub torn_writes: bool,
+    /// C09: crash cuts only, recovery is restart and pump (the request is
+    /// not submitted again), the oracle is `c09::followups_done`.
+    pub c09_mode: bool,
 }
 
 #[derive(Clone)]
@@ -54,6 +57,8 @@ struct SimSnapshot {
     entitlement_events: u64,
     cfg: InstCfg,
     sim_secs: i64,
+    /// CAs with unsent requests at the end of the prefix.
+    open_requests: BTreeSet<String>,
 }
 
 struct PhaseResult {
@@ -67,6 +72,7 @@ struct PhaseResult {
     kv: u64,
     fs: u64,
     result_of_op: String,
+    open_requests: BTreeSet<String>,
 }
 
 fn in_fresh_thread<T: Send + 'static>(
@@ -94,7 +100,9 @@ fn begin_phase(
         st.key_cursor = snap.key_cursor;
         st.oneoff_cursor = snap.oneoff_cursor;
     }
-    seams::set_seed(seed);
+    // The process that continues from the snapshot must not draw the
+    // "random" values (nonces, UUIDs) again that the prefix drew.
+    seams::set_seed(seed ^ 0x5bd1_e995_9e37_79b9);
     seams::set_thread_stream(0);
     seams::set_thread_skew_secs(0);
     seams::enable(true);
@@ -163,6 +171,9 @@ pub fn norm_state(r: &Runner) -> Value {
                     format!("{}:{}", c.parent, c.state)
                 }).collect();
             classes.sort();
+            let mut rcns: Vec<String> = r.class_infos(0, &name).iter()
+                .map(|c| format!("{}:{}", c.parent, c.rcn)).collect();
+            rcns.sort();
             let held = r.held_set(0, &name).map(|s| {
                 crate::model::Res::from_set(&s).to_string()
             }).unwrap_or_default();
@@ -195,6 +206,7 @@ pub fn norm_state(r: &Runner) -> Value {
             parents.sort();
             cas.insert(name, json!({
                 "classes": classes,
+                "_rcns": rcns,
                 "held": held,
                 "roas": roas,
                 "aspas": aspas,
@@ -429,12 +441,16 @@ fn post_cut_checks(r: &mut Runner, what: &str) {
             if issue.contains("overclaiming") {
                 continue
             }
+            // Likewise objects of a key whose certificate the parent
+            // has already withdrawn or revoked ("present but unlisted",
+            // "revoked") while the CA itself has not yet synchronised.
+            // What a cut must never produce is an object that does not
+            // decode, a manifest whose entries are missing or have
+            // another hash, or a broken signature.
             let bad = issue.contains("invalid")
                 || issue.contains("does not decode")
                 || issue.starts_with("listed but missing")
-                || issue.starts_with("present but unlisted")
                 || issue.contains("hash differs")
-                || issue.contains("revoked")
                 || issue.contains("bad signature");
             let expiry = issue.contains("expired") || issue.contains("stale");
             if bad && !expiry {
@@ -576,8 +592,16 @@ pub fn run_pair(seed: u64, profile: &CutProfile) -> RunReport {
         if runner.dead.is_some() {
             return Err(format!("prefix died: {:?}", runner.dead))
         }
-        let _ = runner.views();
-        runner.exec(&Op::Pump);
+        let open_requests;
+        if p.c09_mode && runner.rng.chance(1, 2) {
+            // Leave the follow-ups of the last operations pending.
+            open_requests = None;
+        }
+        else {
+            let _ = runner.views();
+            runner.exec(&Op::Pump);
+            open_requests = Some(crate::c09::open_request_cas(&runner));
+        }
         // The operation to be cut, generated against the reached state.
         let mut target = runner.next_op();
         for _ in 0..20 {
@@ -601,6 +625,9 @@ pub fn run_pair(seed: u64, profile: &CutProfile) -> RunReport {
             entitlement_events: runner.ext.entitlement_events,
             cfg,
             sim_secs: runner.world.sim_secs,
+            open_requests: open_requests.unwrap_or_else(|| {
+                runner.model.cas.values().map(|c| c.name.clone()).collect()
+            }),
         };
         let ops = runner.ops_done.clone();
         let config = format!("{:?}", snap.cfg);
@@ -631,9 +658,13 @@ pub fn run_pair(seed: u64, profile: &CutProfile) -> RunReport {
             snap.clone(), target.clone(), base.clone(), snap_dir.clone(),
             live_dir.clone(), profile.fs_only
         );
+        // In the twin every CA is in the baseline: it only establishes it.
+        let c09_twin = profile.c09_mode.then(|| {
+            snap.model.cas.values().map(|c| c.name.clone()).collect()
+        });
         in_fresh_thread(move || run_phase(
             seed, &base, &snap_dir, &live_dir, &snap, &target,
-            FaultMode::None, fs_only, true
+            FaultMode::None, fs_only, true, c09_twin
         ))
     };
     let twin = match twin {
@@ -684,6 +715,12 @@ pub fn run_pair(seed: u64, profile: &CutProfile) -> RunReport {
     if profile.torn_writes {
         variants.push("torn");
     }
+    if profile.c09_mode {
+        variants = vec!["crash"];
+    }
+    let c09_baseline: Option<BTreeSet<String>> = profile.c09_mode.then(|| {
+        snap.open_requests.union(&twin.open_requests).cloned().collect()
+    });
     for k in ks {
         let site = twin.sites.get((k - 1) as usize).cloned()
             .unwrap_or_default();
@@ -701,9 +738,10 @@ pub fn run_pair(seed: u64, profile: &CutProfile) -> RunReport {
                 live_dir.clone(), profile.fs_only
             );
             let mode2 = mode.clone();
+            let c09 = c09_baseline.clone();
             let res = in_fresh_thread(move || run_phase(
                 seed, &base2, &snap_dir2, &live_dir2, &snap2, &target2,
-                mode2, fs_only, false
+                mode2, fs_only, false, c09
             ));
             let res = match res {
                 Ok(res) => res,
@@ -745,6 +783,21 @@ pub fn run_pair(seed: u64, profile: &CutProfile) -> RunReport {
             }
             let in_window = in_presave_window(&twin.sites, k as usize);
             for mut v in res.violations {
+                if v.rule == "repo_sync_not_done_uncommitted" {
+                    if in_window {
+                        // The uncommitted change that is visible in the
+                        // stored object set: reported under C08.
+                        *report.stats.entry("c09.uncommitted_ahead".into())
+                            .or_insert(0) += 1;
+                        continue
+                    }
+                    v.rule = "repo_sync_not_done".to_string();
+                }
+                if profile.c09_mode && in_window {
+                    // Consequence of the stored object set being ahead
+                    // of the CA (see C08).
+                    v.rule = "object_set_ahead_of_command".to_string();
+                }
                 if v.rule == "object_set_diverged" && in_window {
                     v.rule = "object_set_ahead_of_command".to_string();
                 }
@@ -756,8 +809,17 @@ pub fn run_pair(seed: u64, profile: &CutProfile) -> RunReport {
                 report.violations.push(v);
             }
             if let Some(norm) = &res.norm {
-                if norm != &twin_norm {
-                    let diff = first_diff(&twin_norm, norm, "");
+                let (twin_cmp, norm_cmp) = align_recreated(&twin_norm, norm);
+                let (twin_norm, norm) = (&twin_cmp, &norm_cmp);
+                if norm != twin_norm {
+                    let diff = first_diff(twin_norm, norm, "");
+                    if std::env::var_os("VERIF_DEBUG").is_some() {
+                        eprintln!(
+                            "=== diverged at {k} {variant}\n--- twin\n{}\n--- faulted\n{}",
+                            serde_json::to_string_pretty(&twin_norm).unwrap(),
+                            serde_json::to_string_pretty(norm).unwrap()
+                        );
+                    }
                     // Deleting a CA asks its parents for revocation and
                     // empties its repositories "best effort" before the
                     // CA is dropped: a failing write in that part is
@@ -769,6 +831,11 @@ pub fn run_pair(seed: u64, profile: &CutProfile) -> RunReport {
                         }).map(|p| (k as usize) <= p).unwrap_or(false);
                     let rule = if best_effort {
                         "delete_ca_best_effort_step_failed"
+                    }
+                    else if in_window {
+                        // The stored object set is ahead of the CA and
+                        // the request cannot be repeated successfully.
+                        "object_set_ahead_of_command"
                     }
                     else {
                         "diverged_from_twin"
@@ -802,6 +869,71 @@ pub fn run_pair(seed: u64, profile: &CutProfile) -> RunReport {
     report.wall_ms = t0.elapsed().as_millis() as u64;
     world::remove_run_dir(&base);
     report
+}
+
+/// Prepares the two normalised states for comparison.
+///
+/// Class names are not compared. Where the faulted run re-created a
+/// resource class (the names differ: "failed certificate processing drops
+/// the resource class so it is re-created"), the new class has one fresh
+/// key, so a key roll that was in progress is over: roll stages are then
+/// compared as "active".
+fn align_recreated(twin: &Value, faulted: &Value) -> (Value, Value) {
+    let mut twin = twin.clone();
+    let mut faulted = faulted.clone();
+    let names: Vec<String> = twin.get("cas").and_then(|c| c.as_object())
+        .map(|m| m.keys().cloned().collect()).unwrap_or_default();
+    let mut recreated = false;
+    for name in names {
+        let a = twin["cas"][&name]["_rcns"].clone();
+        let b = faulted.get("cas").and_then(|c| c.get(&name))
+            .and_then(|c| c.get("_rcns")).cloned().unwrap_or(Value::Null);
+        if a != b && !b.is_null() {
+            recreated = true;
+            for side in [&mut twin, &mut faulted] {
+                if let Some(list) = side["cas"][&name]["classes"].as_array_mut() {
+                    for item in list.iter_mut() {
+                        if let Some(text) = item.as_str() {
+                            if let Some((parent, state)) = text.rsplit_once(':') {
+                                if state.starts_with("roll_") {
+                                    *item = Value::String(
+                                        format!("{parent}:active")
+                                    );
+                                }
+                            }
+                        }
+                    }
+                }
+            }
+        }
+    }
+    if recreated {
+        // The number of certificates a parent publishes for a child
+        // depends on the roll stage.
+        for side in [&mut twin, &mut faulted] {
+            if let Some(shapes) = side.get_mut("shapes")
+                .and_then(|c| c.as_object_mut())
+            {
+                for (_, shape) in shapes.iter_mut() {
+                    if let Some(list) = shape.as_array_mut() {
+                        if list.len() == 3 {
+                            list[2] = Value::from(0);
+                        }
+                    }
+                }
+            }
+        }
+    }
+    for side in [&mut twin, &mut faulted] {
+        if let Some(cas) = side.get_mut("cas").and_then(|c| c.as_object_mut()) {
+            for (_, ca) in cas.iter_mut() {
+                if let Some(obj) = ca.as_object_mut() {
+                    obj.remove("_rcns");
+                }
+            }
+        }
+    }
+    (twin, faulted)
 }
 
 /// Whether cut point `k` (1-based) lies after a CA's object set was written
@@ -905,7 +1037,7 @@ fn first_diff(a: &Value, b: &Value, path: &str) -> Option<String> {
 fn run_phase(
     seed: u64, base: &Path, snap_dir: &Path, live_dir: &Path,
     snap: &SimSnapshot, target: &Op, mode: FaultMode, fs_only: bool,
-    is_twin: bool,
+    is_twin: bool, c09: Option<BTreeSet<String>>,
 ) -> PhaseResult {
     let mut out = PhaseResult {
         violations: Vec::new(),
@@ -918,6 +1050,7 @@ fn run_phase(
         kv: 0,
         fs: 0,
         result_of_op: String::new(),
+        open_requests: BTreeSet::new(),
     };
     if let Err(err) = restore_dir(snap_dir, live_dir) {
         out.harness_error = Some(err);
@@ -930,6 +1063,12 @@ fn run_phase(
             out.harness_error = Some(err);
             return out
         }
+    };
+    let pre_sets = if c09.is_some() {
+        crate::c09::all_stored_objects(&r)
+    }
+    else {
+        BTreeMap::new()
     };
     // Arm.
     {
@@ -983,6 +1122,71 @@ fn run_phase(
         }
         r.dead = None;
     }
+    if let Some(baseline) = c09 {
+        // C09: restart (done above if the process died), run every due
+        // task, and look whether every follow-up has been executed.
+        if is_twin {
+            // The twin is restarted as well so that both went through the
+            // start-up path.
+            r.world.insts[0].stop();
+            match guarded(|| r.world.insts[0].start()) {
+                Guarded::Ok(Ok(())) => { }
+                other => {
+                    out.harness_error = Some(format!(
+                        "twin does not restart: {other:?}"
+                    ));
+                    return out
+                }
+            }
+        }
+        for _ in 0..2 {
+            let res = r.exec_pump();
+            hooks::log(format!("recover pump {res}"));
+            if r.dead.is_some() { break }
+        }
+        if r.dead.is_some() {
+            r.violation(
+                "C09", "recovery_dies",
+                format!("{what}: pumping after restart ended with {:?}", r.dead)
+            );
+        }
+        else {
+            check_restart_queue(&mut r, &what);
+            let mut found = crate::c09::followups_done(&r, &baseline, &pre_sets);
+            if found.iter().any(|f| f.0 == "parent_sync_not_done") {
+                // A parent synchronisation that is queued for the next
+                // regular refresh is late, not lost: let that time pass.
+                let secs = r.world.inst(0).cfg.ca_refresh_seconds as i64
+                    + r.world.inst(0).cfg.ca_refresh_jitter_seconds as i64
+                    + 120;
+                r.world.advance(secs);
+                for _ in 0..2 {
+                    let res = r.exec_pump();
+                    hooks::log(format!("recover late pump {res}"));
+                    if r.dead.is_some() { break }
+                }
+                found.retain(|f| f.0 != "parent_sync_not_done");
+                if r.dead.is_none() {
+                    found.extend(
+                        crate::c09::followups_done(&r, &baseline, &pre_sets)
+                            .into_iter()
+                            .filter(|f| f.0 == "parent_sync_not_done")
+                    );
+                }
+            }
+            out.open_requests = crate::c09::open_request_cas(&r);
+            for (rule, detail) in found {
+                r.violation("C09", &rule, format!("{what}: {detail}"));
+            }
+        }
+        debug_phase(&r, &what, &out.result_of_op);
+        let (v, s, kv, fs) = finish_phase(&mut r);
+        out.violations = v;
+        out.stats = s;
+        out.kv = kv;
+        out.fs = fs;
+        return out
+    }
     if !matches!(mode, FaultMode::None) && out.fired_at.is_some() {
         post_cut_checks(&mut r, &what);
     }
@@ -1000,21 +1204,35 @@ fn run_phase(
         }
         out.norm = Some(norm_state(&r));
     }
-    if std::env::var_os("VERIF_DEBUG").is_some() {
-        eprintln!("--- phase {what}: op result {}", out.result_of_op);
-        for line in hooks::state().trace.iter().filter(|l| {
-            l.starts_with("recover") || l.starts_with("died")
-                || l.starts_with("op ") || l.starts_with("fault")
-        }) {
-            eprintln!("    {line}");
-        }
-    }
+    debug_phase(&r, &what, &out.result_of_op);
     let (v, s, kv, fs) = finish_phase(&mut r);
     out.violations = v;
     out.stats = s;
     out.kv = kv;
     out.fs = fs;
     out
+}
+
+
+fn debug_phase(r: &Runner, what: &str, result_of_op: &str) {
+    if std::env::var_os("VERIF_DEBUG").is_some() {
+        eprintln!("--- phase {what}: op result {}", result_of_op);
+        let full = std::env::var("VERIF_DEBUG").map(|v| v == what)
+            .unwrap_or(false);
+        if full {
+            if let Ok((objects, _)) = r.world.objects(0) {
+                for (uri, data) in objects.iter() {
+                    eprintln!("    repo {uri} {}", data.len());
+                }
+            }
+        }
+        for line in hooks::state().trace.iter().filter(|l| {
+            full || l.starts_with("recover") || l.starts_with("died")
+                || l.starts_with("op ") || l.starts_with("fault")
+        }) {
+            eprintln!("    {line}");
+        }
+    }
 }
 
 pub fn profile(name: &str) -> Option<CutProfile> {
@@ -1032,10 +1250,13 @@ pub fn profile(name: &str) -> Option<CutProfile> {
             ..GenCfg::default()
         },
         torn_writes: false,
+        c09_mode: false,
     };
     Some(match name {
         "c08" => base,
-        "c09cuts" => CutProfile { name: "c09cuts", ..base },
+        "c09cuts" => CutProfile {
+            name: "c09cuts", c09_mode: true, max_cuts: 40, ..base
+        },
         "c11cuts" => CutProfile {
             name: "c11cuts",
             fs_only: true,
